@@ -385,6 +385,7 @@ def run(chk):
         if d:
             chk.violation("C20 %s: correspondence broken: %s" % (kind, d), dict(what, correspondence="coq/Model/Heap.v h_step"), False)
     container_fetches(chk, rng)
+    long_recording_fetches(chk, rng)
     shared_sources(chk, rng)
     shared_item_control(chk, rng)
     callers_lists(chk, rng)
@@ -441,6 +442,68 @@ def container_fetches(chk, rng):
                         chk.violation("C20 %s: editing a block fetched from an open file changed another fetch of the same block" % k,
                                       {"kind": k, "fetch": [w1, w2]}, True)
                         return
+
+
+def long_recording_fetches(chk, rng):
+    """the same for recordings of the length real captures have (300 000 gap-free samples per signal, about a megabyte each),
+    fetched twice from a file on disk inside a read context AND inside a write-enabled one: each fetch has its own
+    numbers — an in-place edit of one shows neither in the other, nor in a third fetch, nor in the file"""
+    import hashlib
+    import os
+    import numpy as np
+    from basictdf import Tdf
+    from basictdf.tdfEMG import EMG, EMGTrack
+    from basictdf.tdfData3D import Data3D, MarkerTrack
+    from harness import container
+    work = os.path.join(chk.work, "c20long")
+    os.makedirs(work, exist_ok=True)
+    n = 300000
+    for kind in ("EM", "D3"):
+        p = os.path.join(work, "long_%s.tdf" % kind)
+        if os.path.exists(p):
+            os.unlink(p)
+        with container.scripted_clock():
+            container.Clock.now = container.T0
+            Tdf.new(p)
+            if kind == "EM":
+                b = EMG(1000, n)
+                for lab in ("biceps", "triceps"):
+                    b.addSignal(EMGTrack(lab, (np.arange(n, dtype="<f4") % 997) / 7))
+            else:
+                b = Data3D(100, n, np.ones(3, dtype="<f4"), np.eye(3, dtype="<f4"), np.zeros(3, dtype="<f4"))
+                b.add_track(MarkerTrack("c7", (np.arange(3 * n, dtype="<f4").reshape(n, 3) % 911) / 3))
+            with Tdf(p).allow_write() as f:
+                f.add_block(b)
+        attr = "emg" if kind == "EM" else "data3D"
+        for mode in ("read context", "write-enabled context"):
+            t = Tdf(p)
+            ctx = t.allow_write() if mode.startswith("write") else t
+            file_before = hashlib.sha1(open(p, "rb").read()).hexdigest()
+            chk.note_case(("long recording fetched twice", kind, mode), True)
+            chk.count("long recording fetched twice inside a %s" % mode)
+            what = {"kind": kind, "samples": n, "context": mode}
+            with ctx as f:
+                first, second = getattr(f, attr), getattr(f, attr)
+                before = sha(second)
+                item = (first._signals if kind == "EM" else first._tracks)[0]
+                try:
+                    item.data[:5] = -1000.0
+                    edited = True
+                except ValueError:
+                    edited = False          # a read-only array: no edit is possible at all
+                third = getattr(f, attr)
+                found = None
+                if first is second:
+                    found = "two fetches return the same object"
+                elif edited and sha(second) != before:
+                    found = "an in-place edit of one fetch shows in the other"
+                elif edited and sha(third) != before:
+                    found = "an in-place edit of one fetch shows in a later fetch"
+            if found is None and hashlib.sha1(open(p, "rb").read()).hexdigest() != file_before:
+                found = "an in-place edit of a fetched block changed the file"
+            if found:
+                chk.violation("C20 %s (%d gap-free samples, %s): %s" % (kind, n, mode, found), what, True)
+                return
 
 
 def shared_sources(chk, rng):
